@@ -8,7 +8,9 @@ META = {
             "representation, or 206 with body = file[start..min(end,len-1)] and the Content-Range built from exactly those "
             "numbers; every well-formed satisfiable `bytes=a-b` / `bytes=a-` is served; the path handed to the OS is the root "
             "followed by components none of which is '..'. The model is tied to the code by a differential run of the real "
-            "AssetsHandler, normalizeAssetPath and strconv.ParseInt against the model, plus a model-free oracle on the responses.",
+            "AssetsHandler, normalizeAssetPath and strconv.ParseInt against the model, plus a model-free oracle on the responses; "
+            "the asset root holds small files and generated assets of MaxAssetSize-1 / MaxAssetSize / MaxAssetSize+1 / 1.5 x "
+            "MaxAssetSize / cache-limit+1 bytes that are asked for ranges wider than, equal to and just under MaxAssetSize.",
     "note": "The theorems are about the code WITH fixes/C39.patch (the model's `fixed = true`); `C39_orig_*` theorems exhibit the "
             "panics / wrong Content-Range of the unpatched code. Trusted: Lean kernel; the harness; os/net/http; filepath.Clean, "
             "strings.ReplaceAll/Split and strconv.ParseInt are modelled functionally and tied by correspondence only. Modelled, "
@@ -51,12 +53,15 @@ def run(ctx):
     c = st.get("counters", {})
     if cases and (c.get("oracle_206", 0) == 0 or c.get("oracle_200", 0) == 0 or c.get("oracle_error", 0) == 0):
         ctx.broken.append("harness exercised no 200 / 206 / error responses: %s" % c)
+    if cases and (c.get("big_req", 0) == 0 or c.get("oracle_206_span_gt_max", 0) == 0 or c.get("oracle_206_span_at_max", 0) == 0):
+        ctx.broken.append("harness served no range wider than / as wide as MaxAssetSize from the large assets: %s" % c)
     ctx.coverage.update({
         "evaluations": len(cases),
         "distinct_nontrivial": c.get("distinct_nontrivial", 0),
         "rule": "req: distinct (path, Range values, method); non-trivial = a Range header that is not a well-formed in-bounds "
                 "single range (missing dash, open-ended beyond EOF, inverted, multi-range, signs, overflow, junk bytes) or a "
-                "path containing '..', '//' or '/./'; pint: hostile number spellings; norm: hostile roots x paths",
+                "path containing '..', '//' or '/./'; counters big_* / oracle_206_span_* count the requests to the large generated "
+                "assets and the 206 answers whose span exceeds / reaches MaxAssetSize; pint: hostile number spellings; norm: hostile roots x paths",
         "samples": st.get("samples", []),
         "counters": c,
     })
